@@ -149,6 +149,7 @@ def classify(verdict, detail):
 
 
 OPTS4 = [o for o in OPTS if o[1] == o[2]]     # process_html_tokens x (both quote options equal)
+OPTS2 = [(False, False, False), (True, True, True)]
 
 
 def _run_inputs(job, optlist=OPTS):
@@ -210,7 +211,7 @@ def _run_alpha(job):
     prefix, total, nopts = job
     k = total - len(prefix)
     inputs = [prefix + ''.join(t) for t in itertools.product(SIGMA, repeat=k)]
-    return _run_inputs(('ALPHA', inputs), OPTS if nopts == 8 else OPTS4)
+    return _run_inputs(('ALPHA', inputs), {8: OPTS, 4: OPTS4, 2: OPTS2}[nopts])
 
 
 # ---------------------------------------------------------------------------------------------
@@ -390,19 +391,20 @@ def gen_attack(seen, alpha_n, thorough):
 def run(tier, seed, workers):
     T = Timer()
     thorough = tier == 'thorough'
-    alpha_full8 = 7 if thorough else 5         # exhaustive up to this length, 8 option combos
-    alpha_full = 7 if thorough else 6          # exhaustive up to this length (4 combos beyond)
+    alpha_full8 = 6 if thorough else 5         # exhaustive up to this length, 8 option combos
+    alpha_full = 7 if thorough else 6          # exhaustive up to this length (fewer combos beyond)
+    beyond = 2 if thorough else 4              # option combinations beyond alpha_full8
     alpha_slice = 8 if thorough else None      # one seed-selected 1/SLICES slice of this length
     SLICES = 12
-    mut_maxlen = 10 ** 9 if thorough else 60
+    mut_maxlen = 10 ** 9 if thorough else 40
     n_random = 2000000 if thorough else 200000
 
     jobs = []
     spec = gen_spec()
     seen = set(spec)
-    muts = gen_mutations(spec, mut_maxlen, alpha_full)
+    muts = gen_mutations(spec, mut_maxlen, alpha_full8)
     seen.update(muts)
-    attack = gen_attack(seen, alpha_full, thorough)
+    attack = gen_attack(seen, alpha_full8, thorough)
     for name, lst in (('SPEC', spec), ('SPEC-mutations', muts), ('ATTACK', attack)):
         for ch in chunks(lst, max(1, min(len(lst) // 400 + 1, workers * 6))):
             jobs.append((_run_inputs, (name, ch)))
@@ -411,14 +413,14 @@ def run(tier, seed, workers):
     for L in range(0, alpha_full + 1):
         plen = min(L, 3 if L >= 6 else 2 if L >= 3 else 0)
         for p in itertools.product(SIGMA, repeat=plen):
-            jobs.append((_run_alpha, (''.join(p), L, 8 if L <= alpha_full8 else 4)))
+            jobs.append((_run_alpha, (''.join(p), L, 8 if L <= alpha_full8 else beyond)))
         n_alpha += len(SIGMA) ** L
     n_slice = 0
     if alpha_slice:
         prefs = [''.join(p) for p in itertools.product(SIGMA, repeat=4)]
         for i, p in enumerate(prefs):
             if i % SLICES == seed % SLICES:
-                jobs.append((_run_alpha, (p, alpha_slice, 4)))
+                jobs.append((_run_alpha, (p, alpha_slice, beyond)))
                 n_slice += len(SIGMA) ** (alpha_slice - 4)
     # helpers
     step = 0x110000 // (workers * 4) + 1
@@ -465,14 +467,16 @@ def run(tier, seed, workers):
             'position of the examples of length <= %s) + ATTACK grammar (%d documents: %d '
             'one-slot templates x %d hostile strings, %d two-slot templates x %d^2, %d sinks x '
             'all concatenations of two hostile strings) + ALPHA: all %d strings over %r of '
-            'length <= %d (exhaustive; all 8 option combinations up to length %d, beyond that the '
-            '4 combinations with html_escape_double_quotes == html_escape_single_quotes)%s; helper contracts escape_html_text (4 option combos) / '
+            'length <= %d (exhaustive; all 8 option combinations up to length %d, beyond that %s)'
+            '%s; helper contracts escape_html_text (4 option combos) / '
             'html.escape / escape_url on every code point 0..0x10FFFF (escape_url skips lone '
             'surrogates) and on %d random concatenations (seeded)'
             % (len(spec), len(muts), MUT_CHARS, 'unbounded' if thorough else mut_maxlen,
                len(attack), len(TEMPLATES), len(HOSTILE), len(TEMPLATES2), len(HOSTILE),
                len(TEMPLATES) if thorough else len(CONCAT_SINKS), n_alpha, ''.join(SIGMA),
                alpha_full, alpha_full8,
+               'the 4 combinations with html_escape_double_quotes == html_escape_single_quotes'
+               if beyond == 4 else 'the 2 combinations all-off / all-on',
                (' + slice %d/%d (4-character prefixes with index %% %d == seed %% %d) of length '
                 '%d: %d strings' % (seed % SLICES, SLICES, SLICES, SLICES, alpha_slice, n_slice))
                if alpha_slice else '', per * workers * 2)),
